@@ -1317,6 +1317,12 @@ func (t *tr) stmtEffect(x *ast.AssignStmt) (string, bool) {
 	if eff, ok := t.sp.AppendEffect["stmt:"+norm(src(x))]; ok {
 		return eff, true
 	}
+	if len(x.Lhs) == 1 && len(x.Rhs) == 1 && len(t.aliases) > 0 {
+		// the same assignment written through a hoisted pure read (`entry := leaf.TimestampedEntry; entry.EntryType = …`)
+		if eff, ok := t.sp.AppendEffect["stmt:"+norm(src(t.subst(x.Lhs[0])))+"="+norm(src(t.subst(x.Rhs[0])))]; ok {
+			return eff, true
+		}
+	}
 	if len(x.Rhs) != 1 {
 		return "", false
 	}
@@ -1711,7 +1717,7 @@ func (t *tr) block(b []ast.Stmt, tail string, ind string) string {
 			for _, l := range x.Lhs {
 				hit := false
 				for _, ig := range t.sp.IgnoreLHS {
-					if src(l) == ig {
+					if src(l) == ig || (len(t.aliases) > 0 && norm(src(t.subst(l))) == norm(ig)) { // also when written through a hoisted pure read
 						hit = true
 					}
 				}
